@@ -18,7 +18,7 @@ LEVEL = "proof"
 META = {
     "category": "proof",
     "text": "Coq theorems (17, no axioms) over an executable model of the index/slice core of starlark/eval.go (asIndex, indices, slice, signum64, the Slice loops of String/Bytes/List/Tuple, getIndex/setIndex), of range values and rangeValue.Slice, and of all 30 string methods, the 7 list methods, reversed/zip/enumerate/any/all, sorted/min/max, concatenation and repetition of library.go / eval.go. slice_correct: for every sequence length, every None / int of any size / non-int operand triple and every stride the Go computation -- bounds, then the loop run with fuel len+1 or the step=1 fast path -- returns exactly Python's slice (the elements at slice.indices' arithmetic progression), never panics or runs out of fuel, and fails exactly for a zero stride or a non-int operand; the same for ranges (range_slice_correct, through the unsigned division of rangeLen), for x[i] and x[i]=v, and for the (start,end) normalisation shared by the methods (indices_clamp). string_methods_correct_partial / list_methods_correct / builtins_correct / repeat_correct: for EVERY argument tuple (arity, types, None, omitted optionals, huge integers) each method equals an independently written Python-semantics specification: sub-range methods, split/rsplit with a separator for every maxsplit (rightmost, also overlapping), the hand-written splitspace/rsplitspace loops against a word splitter, splitlines, partition, replace, join, strip family, case mapping and predicates, list insert/pop/index/remove/extend, zip (shortest), enumerate, repetition guards. sorted_correct: on the computed keys the implementation returns the unique list the specification allows -- ordered by key, descending when reverse=True, ties in input order in BOTH directions (stability of the reversed sort); minmax_correct / minmax_unique: the first extremal element, failure exactly on an empty sequence. The one input class where the full statement is false -- strip(\"\") -- is excluded by a boolean guard and refuted by strip_empty_cutset_refuted (known finding). The hand-written model is tied to /repo on every run: the harness executes the real operations exhaustively (all (lo,hi,step) in ([-n-3,n+3] U None)^3 for receivers of length 0-8 over a 3-letter alphabet, for string, bytes, list, tuple, range) and on dense method argument tuples, huge counts in a child process, random receivers to length 40; every case is checked against a naive Go copy of the specification; a sample is evaluated inside Coq against both the model (correspondence) and Spec.v (oracle), and in CPython 3 as an independent opinion on Spec.v.",
-    "note": "Trusted: Coq kernel + vm_compute; the harness, its generators and its Go copy of the specification; Go's strings/unicode functions are modelled by their documented meaning on ASCII (library oracles, validated only by the correspondence run); CPython validates Spec.v on the shared subset, with the deliberate differences of spec.md listed by class in the evidence (cpython_documented_differences). string.format has a Coq model (Format.v: the scanning loop of string_format) and an independent parse-then-evaluate specification (FormatSpec.v) with argument values abstract (their str / repr texts, observed from the interpreter's value printer, are parameters: how values print is C15); format_correct_partial proves model = specification for all templates whose numeric field names are below 2^63 and format_correct_refuted shows the unguarded statement false (decimal wraps: \"{18446744073709551616}\".format(\"a\") is \"a\"); a sample of the executed format cases is evaluated against both, every executed case against a Go copy of the specification and a sample against CPython. % interpolation likewise (Interp.v: the scanning loop of interpolate in eval.go; InterpSpec.v: parse into items, evaluate with operand counting; interpolate_correct holds for all templates and operands, no guard), with what each conversion letter prints for a single value (str / repr from the value printer, d i o x X e f g E F G c from the single-conversion call) as parameters; every executed case is also checked against a Go copy of the specification (% conversions s r d i o x X c, %(key), argument counting; str / repr of values) and a sample against CPython, whose differing string quoting in repr is a documented difference. sorted/min/max are modelled on integer keys (elements named by their positions); other key types (strings, tuples, floats, mixed 1/1.0) and the failure on unordered keys are covered by the Go copy of the specification and CPython; sort.Stable is a library oracle (reference stable insertion sort). Sequence lengths are bounded by 2^61 (slices) / 2^31 (index expressions) in the theorems; range receivers have 32-bit parameters (wider range arithmetic is C10).",
+    "note": "Trusted: Coq kernel + vm_compute; the harness, its generators and its Go copy of the specification; Go's strings/unicode functions are modelled by their documented meaning on ASCII (library oracles, validated only by the correspondence run); CPython validates Spec.v on the shared subset, with the deliberate differences of spec.md listed by class in the evidence (cpython_documented_differences). string.format has a Coq model (Format.v: the scanning loop of string_format) and an independent parse-then-evaluate specification (FormatSpec.v) with argument values abstract (their str / repr texts, observed from the interpreter's value printer, are parameters: how values print is C15); format_correct proves model = specification for all templates and argument lists (the statement was false before commit 5574fcc, when decimal wrapped: \"{18446744073709551616}\".format(\"a\") was \"a\" -- History.old_format_refuted; the check now generates field numbers around 2^63 and 2^64); a sample of the executed format cases is evaluated against both, every executed case against a Go copy of the specification and a sample against CPython. % interpolation likewise (Interp.v: the scanning loop of interpolate in eval.go; InterpSpec.v: parse into items, evaluate with operand counting; interpolate_correct holds for all templates and operands, no guard), with what each conversion letter prints for a single value (str / repr from the value printer, d i o x X e f g E F G c from the single-conversion call) as parameters; every executed case is also checked against a Go copy of the specification (% conversions s r d i o x X c, %(key), argument counting; str / repr of values) and a sample against CPython, whose differing string quoting in repr is a documented difference. sorted/min/max are modelled on integer keys (elements named by their positions); other key types (strings, tuples, floats, mixed 1/1.0) and the failure on unordered keys are covered by the Go copy of the specification and CPython; sort.Stable is a library oracle (reference stable insertion sort). Sequence lengths are bounded by 2^61 (slices) / 2^31 (index expressions) in the theorems; range receivers have 32-bit parameters (wider range arithmetic is C10).",
     "technique": "Coq proof over executable model + exhaustive differential correspondence (vm_compute) + Spec.v / Go / CPython oracles",
 }
 
@@ -816,7 +816,7 @@ def run(ctx):
         "coq_cases": len(terms), "cpython_cases": len(allpy), "go_oracle_cases": stats["total"],
         "coq_format_cases": sum(1 for t in terms if t.startswith("(CFormat ")),
         "coq_interpolate_cases": sum(1 for t in terms if t.startswith("(CInterp ")),
-        "rule": "exhaustive (lo, hi, step) in ([-n-3, n+3] U None)^3 for every receiver of length <= %d over {a,b,c} and sampled receivers up to length 8, for string, bytes, list, tuple and five range shapes; every index in the pool; method argument tuples over needles/separators of length 0-3, all (start, end) pairs of the pool, omitted optionals, None, wrong types, counts -7..n+1; huge counts/indices (2^31-1, 2^31, 2^32, +-2^62, 2^63-1, 2^63, 2^100) in a child process; sorted/min/max on every list of length 0-4 over pools with duplicates and on random lists to length 8, keys len / x%%3 / constant / first / lower / int / -x and none, mixed 1 / 1.0 / True, reverse omitted / True / False; every iterable-taking built-in / method (zip, enumerate, reversed, sorted, min, max, any, all, list, tuple, list.extend, str.join) on sequences with a known length (list, tuple, range, str.elems(), str.elem_ords()) and on length-less iterables (str.codepoints(), str.codepoint_ords(), bytes.elems()) in every argument position with lengths 0-4 shorter / equal / longer than the other arguments; every returned value is validated deeply (a nil element is a finding by itself); str.format and %% interpolation on every sequence of template segments (fields {} {0} {a} with !r / !s / specs / bad conversions, brace escapes; %%s %%r %%d %%x %%X %%o %%i %%c %%%% %%(key)) with positional, keyword, missing and surplus arguments; seeded random receivers to length 40. Every executed case is compared with the Go copy of the specification; a sample of the format / %% cases (every 8th / 16th in the quick tier, every 40th / 60th in the thorough tier, plus every case on which the Go copy disagrees) is evaluated in Coq against Format.v / FormatSpec.v and Interp.v / InterpSpec.v; `distinct_nontrivial` counts the distinct cases evaluated in Coq against C13 model and Spec.v whose result is a value or an index/method error" % (2 if ctx.quick() else 5),
+        "rule": "exhaustive (lo, hi, step) in ([-n-3, n+3] U None)^3 for every receiver of length <= %d over {a,b,c} and sampled receivers up to length 8, for string, bytes, list, tuple and five range shapes; every index in the pool; method argument tuples over needles/separators of length 0-3, all (start, end) pairs of the pool, omitted optionals, None, wrong types, counts -7..n+1; huge counts/indices (2^31-1, 2^31, 2^32, +-2^62, 2^63-1, 2^63, 2^100) in a child process; sorted/min/max on every list of length 0-4 over pools with duplicates and on random lists to length 8, keys len / x%%3 / constant / first / lower / int / -x and none, mixed 1 / 1.0 / True, reverse omitted / True / False; every iterable-taking built-in / method (zip, enumerate, reversed, sorted, min, max, any, all, list, tuple, list.extend, str.join) on sequences with a known length (list, tuple, range, str.elems(), str.elem_ords()) and on length-less iterables (str.codepoints(), str.codepoint_ords(), bytes.elems()) in every argument position with lengths 0-4 shorter / equal / longer than the other arguments; every returned value is validated deeply (a nil element is a finding by itself); str.format and %% interpolation on every sequence of template segments (fields {} {0} {a} with !r / !s / specs / bad conversions, brace escapes; numeric field names around 2^63, 2^64, 10 * 2^64, 2^128 and small numbers written with 19-30 digits, also supplied as keyword names; %%s %%r %%d %%x %%X %%o %%i %%c %%%% %%(key)) with positional, keyword, missing and surplus arguments; seeded random receivers to length 40. Every executed case is compared with the Go copy of the specification; a sample of the format / %% cases (every 8th / 16th in the quick tier, every 40th / 60th in the thorough tier, plus every case on which the Go copy disagrees) is evaluated in Coq against Format.v / FormatSpec.v and Interp.v / InterpSpec.v; `distinct_nontrivial` counts the distinct cases evaluated in Coq against C13 model and Spec.v whose result is a value or an index/method error" % (2 if ctx.quick() else 5),
         "samples": samples, "distribution": dist,
         "model_mismatches": len(bad_model), "spec_mismatches": len(bad_spec), "go_oracle_mismatches": stats["gomis"],
         "cpython_differences": len(py_diff), "cpython_documented_differences": documented,
@@ -827,7 +827,7 @@ def run(ctx):
         "text is ASCII, so byte offsets and code points coincide (the property's quantifier)",
         "lists are unfrozen and not being iterated (freezing / mutation during iteration: C04, C06); element equality on the value domain used here cannot fail",
         "sequence lengths are below 2^31 for index expressions and below 2^61 for slices (Go cannot allocate more); range receivers have int32 parameters (range arithmetic overflow: C10)",
-        "string.format: the Coq model and specification take the str / repr text of every argument as given (observed per case from the interpreter's value printer: repr = Value.String(), str = the string itself or else repr, as spec.md defines str; the built-in str() additionally decodes bytes, which spec.md does not say -- C15's subject); the error class is observed only as \"the call failed\"; numeric field names of 19 or more digits are outside format_correct_partial (format_correct_refuted: decimal wraps past 2^64) and are not generated",
+        "string.format: the Coq model and specification take the str / repr text of every argument as given (observed per case from the interpreter's value printer: repr = Value.String(), str = the string itself or else repr, as spec.md defines str; the built-in str() additionally decodes bytes, which spec.md does not say -- C15's subject); the error class is observed only as \"the call failed\"; len(args) fits in a Go int",
         "% interpolation: the Coq model and specification take, per operand value, the text each conversion letter prints for that value alone (str / repr from the value printer; d i o x X e f g E F G c observed from the single-conversion call \"%d\" % (v,) ..., i.e. number / character formatting is not checked here: C15 / C19, the Go copy of the specification and CPython cover it); they check how a whole template is scanned and how operands are selected and counted",
         "sorted / min / max: the key function is applied outside the Coq model (keys are inputs); the Coq fragment has integer keys, sort.Stable is modelled by the reference stable insertion sort; every executed case (any key type, 16k+ with key ties) is checked against the Go copy of the specification and a sample against CPython",
     ])
